@@ -57,6 +57,8 @@ struct Cfg {
   std::vector<AnsDef> answers;
   long maxNodes = 600000;
   bool escQQ = false;
+  bool arbNone = true;       // the arbitration byte may vanish from the wire (no echo at all)
+  bool chunk2 = false;       // deliveries of two symbols in one transport read chunk
   bool lateEcho = false;     // the wire image of the arbitration byte may arrive after a read timeout
   bool enhLongForm = false;  // enhanced: symbols < 0x80 also as RECEIVED frames
   uint8_t enhFeatures = 0;   // feature bits the simulated adapter reports in RESETTED
@@ -87,7 +89,7 @@ static void parseArg(const std::string& a) {
   else if (k == "keyseen") C.keySeen = b(); else if (k == "reconnect") C.reconnect = b(); else if (k == "maxnodes") C.maxNodes = atol(v.c_str());
   else if (k == "escqq") C.escQQ = b();
   else if (k == "autopoll") C.autoPoll = b();
-  else if (k == "lateecho") C.lateEcho = b();
+  else if (k == "lateecho") C.lateEcho = b(); else if (k == "chunk2") C.chunk2 = b(); else if (k == "arbnone") C.arbNone = b();
   else if (k == "enhlong") C.enhLongForm = b(); else if (k == "enhfeat") C.enhFeatures = (uint8_t)atoi(v.c_str());
   else if (k == "events") g_mask = "," + v + ",";
   else if (k == "req") {  // req=<kind>:<hex master without crc>[:restarts]
@@ -293,13 +295,15 @@ struct VReq;
 static std::vector<VReq*> g_reqs;
 static std::string jb(const SymbolString& s) { std::string o; vf::jbytes(&o, s.data(), s.size()); return o; }
 static std::vector<MasterSymbolString*> g_masters;  // request contents live outside the request objects (never freed)
+static int g_status[16];  // request status lives outside the objects: a store in a destructor to the dying object may be optimised away
 struct VReq : public BusRequest {
   // no owning members: a (wrong) second destruction of a request must not crash the harness but be reported as an event
-  int idx, kind, restartsLeft, status;  // status: 0 idle, 1 active (owned by handler), 2 completed (in finished queue), 3 deleted
+  int idx, kind, restartsLeft;
+  int& status;  // 0 idle, 1 active (owned by handler), 2 completed (in finished queue), 3 deleted
   int result; uint8_t slaveLen; uint8_t slaveBuf[40];
   const MasterSymbolString& ms;
-  VReq(int i, const ReqDef& d) : BusRequest(*g_masters[i], d.kind == 1), idx(i), kind(d.kind), restartsLeft(d.restarts), status(0), result(0),
-    slaveLen(0), ms(*g_masters[i]) {}
+  VReq(int i, const ReqDef& d) : BusRequest(*g_masters[i], d.kind == 1), idx(i), kind(d.kind), restartsLeft(d.restarts), status(g_status[i]), result(0),
+    slaveLen(0), ms(*g_masters[i]) { status = 0; }
   std::vector<uint8_t> slave() const { return std::vector<uint8_t>(slaveBuf, slaveBuf + slaveLen); }
   void setSlave(const uint8_t* d, size_t n) { slaveLen = (uint8_t)std::min<size_t>(n, sizeof slaveBuf); memcpy(slaveBuf, d, slaveLen); }
   bool notify(result_t res, const SlaveSymbolString& sl) override {
@@ -445,15 +449,20 @@ std::string Snap::key() const {
   return k;
 }
 std::string Snap::json() const {
-  char b[512];
+  char b[700];
   snprintf(b, sizeof b, "{\"state\":%d,\"esc\":%d,\"crc\":%d,\"crcValid\":%d,\"repeat\":%d,\"pos\":%d,\"cur\":%d,\"answering\":%d,\"remainLock\":%d,"
-    "\"lockCount\":%d,\"genSyn\":%d,\"lstate\":%d,\"masters\":%d,\"conflict\":%d,\"age\":%d,\"reconnect\":%d,\"arbMaster\":%d,\"arbCheck\":%d,\"valid\":%d,\"ph\":%d,",
+    "\"lockCount\":%d,\"genSyn\":%d,\"lstate\":%d,\"masters\":%d,\"conflict\":%d,\"age\":%d,\"reconnect\":%d,\"arbMaster\":%d,\"arbCheck\":%d,\"valid\":%d,"
+    "\"armed\":%d,\"enhResetAge\":%d,\"enhResetRequested\":%d,\"enhFeatures\":%d,\"enhInfoLen\":%d,\"enhInfoPos\":%d,"
+    "\"trk\":{\"ph\":%d,\"qq\":%d,\"zz\":%d,\"left\":%d,\"crc\":%d,\"crc0\":%d,\"esc\":%d,\"mrep\":%d,\"srep\":%d,\"crcok\":%d},",
     state, escape, crc, crcValid, repeat, nextSendPos, cur, answering, remainLock, lockCount, genSyn, lstate, masterCount, conflict, age, reconnect,
-    arbMaster, arbCheck, valid, trk.ph);
+    arbMaster, arbCheck, valid, armed, enhResetAge, enhResetRequested, enhFeatures, enhInfoLen, enhInfoPos,
+    trk.ph, trk.qq, trk.zz, trk.left, trk.crc, trk.crc0, trk.esc, trk.mrep, trk.srep, trk.crcok);
   std::string s = b;
-  s += "\"cmd\":" + vf::jbytes(command) + ",\"res\":" + vf::jbytes(response) + ",\"buf\":" + vf::jbytes(buf) + ",\"seen\":" + vf::jbytes(seen);
-  s += ",\"nextq\":" + vf::jints(nextq) + ",\"finq\":" + vf::jints(finq) + ",\"rstatus\":" + vf::jints(rstatus) + ",\"rretries\":" + vf::jints(rretries) + "}";
-  return s;
+  s += "\"cmd\":" + vf::jbytes(command) + ",\"res\":" + vf::jbytes(response) + ",\"buf\":" + vf::jbytes(buf) + ",\"org\":" + vf::jbytes(org) + ",\"seen\":" + vf::jbytes(seen);
+  s += ",\"nextq\":" + vf::jints(nextq) + ",\"finq\":" + vf::jints(finq) + ",\"rstatus\":" + vf::jints(rstatus) + ",\"rretries\":" + vf::jints(rretries);
+  s += ",\"rrestarts\":" + vf::jints(rrestarts) + ",\"rresult\":" + vf::jints(rresult) + ",\"rslave\":[";
+  for (size_t i = 0; i < rslave.size(); i++) s += (i ? "," : "") + vf::jbytes(rslave[i]);
+  return s + "]}";
 }
 
 // ---------------------------------------------------------------- the system under test
@@ -567,11 +576,23 @@ static void delivChoices(const Tracker& t, std::vector<std::string>* o, int late
     case P_ACK: case P_SACK: addU(o, "00"); addU(o, "ff"); addU(o, h2(C.junk[0])); addU(o, "aa"); break;
   }
 }
+// deliveries of two symbols in one read chunk (RESULT_CONTINUE path, "SYN with more data buffered", arbitration with len > 1)
+static void delivChoices2(const Tracker& t, std::vector<std::string>* o, int lateEcho) {
+  delivChoices(t, o, lateEcho);
+  if (!C.chunk2) return;
+  std::vector<std::string> first(*o);
+  for (const std::string& x : first) {
+    if (x == "to" || x == "tl" || x == "er") continue;
+    Tracker t2 = t; t2.advance((uint8_t)strtoul(x.c_str(), nullptr, 16));
+    std::vector<std::string> second; delivChoices(t2, &second, -1);
+    for (const std::string& y : second) if (y != "to" && y != "tl" && y != "er") o->push_back(x + y);
+  }
+}
 static void echoChoices(const Tracker& t, uint8_t w, std::vector<std::string>* o) {
   o->clear(); o->push_back("s");
   if (t.ph == P_QQ && !t.mrep && isMaster(w)) {  // arbitration position: collisions
     for (uint8_t x : C.winners) if (x != w) addU(o, "x" + h2(x));
-    o->push_back("n");
+    if (C.arbNone) o->push_back("n");
   } else if (C.echoFaults) {
     uint8_t c = (uint8_t)(w ^ 0x04); if (c == SYN || c == ESC) c = (uint8_t)(w ^ 0x40);
     addU(o, "x" + h2(c)); o->push_back("n");
@@ -649,7 +670,7 @@ static int cmdGraph(const char* outPath) {
       std::string e0 = in.usedEcho ? in.echo : "", d0 = in.usedDeliv ? in.deliv : "";
       int cb0 = in.usedCb ? in.cb : -1; bool w0 = in.usedW && in.wfail;
       if (in.usedEcho) { std::vector<std::string> c; echoChoices(in.echoT, in.echoW[0], &c); for (auto& x : c) alts.push_back(compose(x, d0, cb0, w0, of)); }
-      if (in.usedDeliv) { std::vector<std::string> c; delivChoices(in.delivT, &c, in.lateEcho); for (auto& x : c) alts.push_back(compose(e0, x, cb0, w0, of)); }
+      if (in.usedDeliv) { std::vector<std::string> c; delivChoices2(in.delivT, &c, in.lateEcho); for (auto& x : c) alts.push_back(compose(e0, x, cb0, w0, of)); }
       if (in.usedCb) { VerifAccess::restore(g_h, g_d, g_t, cur); for (size_t r = 0; r < g_reqs.size(); r++) if (g_reqs[r]->status == 0 || g_reqs[r]->status == 3) alts.push_back(compose(e0, d0, (int)r, w0, of)); }
       if (in.usedW && !w0) alts.push_back(compose(e0, d0, cb0, true, of));
       if (!cur.valid && C.openFail && !of) alts.push_back(compose(e0, d0, cb0, w0, true));
